@@ -1,0 +1,104 @@
+//go:build verif
+
+// Contracts for package packets1, read by /verif/govc (comment-only file).
+
+package packets1
+
+//@ func ReadPacket
+//@   nopanic [C20]
+
+//@ func NewPacketWithHeader
+//@   nopanic [C20]
+//@   ensures [C20] nonnil: err == nil ==> pkt != nil && fresh(pkt)
+
+//@ func (*Advertise).Unpack
+//@   nopanic [C20]
+//@   assigns p.GatewayID, p.Duration
+//@ func (*Auth).Unpack
+//@   nopanic [C20]
+//@   assigns p.Reason, p.Method, p.Data
+//@ func (*Connack).Unpack
+//@   nopanic [C20]
+//@   assigns p.ReturnCode
+//@ func (*Connect).Unpack
+//@   nopanic [C20]
+//@   assigns p.Will, p.CleanSession, p.ProtocolID, p.Duration, p.ClientID
+//@ func (*Disconnect).Unpack
+//@   nopanic [C20]
+//@   assigns p.Duration
+//@ func (*GwInfo).Unpack
+//@   nopanic [C20]
+//@   assigns p.GatewayID, p.GatewayAddress
+//@ func (*Pingreq).Unpack
+//@   nopanic [C20]
+//@   assigns p.ClientID
+//@ func (*Pingresp).Unpack
+//@   nopanic [C20]
+//@ func (*Puback).Unpack
+//@   nopanic [C20]
+//@   assigns p.TopicID, p.messageID, p.ReturnCode
+//@ func (*Pubcomp).Unpack
+//@   nopanic [C20]
+//@   assigns p.messageID
+//@ func (*Publish).Unpack
+//@   nopanic [C20]
+//@   assigns p.dup, p.QOS, p.Retain, p.TopicIDType, p.TopicID, p.messageID, p.Data
+//@ func (*Pubrec).Unpack
+//@   nopanic [C20]
+//@   assigns p.messageID
+//@ func (*Pubrel).Unpack
+//@   nopanic [C20]
+//@   assigns p.messageID
+//@ func (*Regack).Unpack
+//@   nopanic [C20]
+//@   assigns p.TopicID, p.messageID, p.ReturnCode
+//@ func (*Register).Unpack
+//@   nopanic [C20]
+//@   assigns p.TopicID, p.messageID, p.TopicName
+//@ func (*SearchGw).Unpack
+//@   nopanic [C20]
+//@   assigns p.Radius
+//@ func (*Suback).Unpack
+//@   nopanic [C20]
+//@   assigns p.QOS, p.TopicID, p.messageID, p.ReturnCode
+//@ func (*Subscribe).Unpack
+//@   nopanic [C20]
+//@   assigns p.dup, p.QOS, p.TopicIDType, p.messageID, p.TopicID, p.TopicName
+//@ func (*Unsuback).Unpack
+//@   nopanic [C20]
+//@   assigns p.messageID
+//@ func (*Unsubscribe).Unpack
+//@   nopanic [C20]
+//@   assigns p.TopicIDType, p.messageID, p.TopicID, p.TopicName
+//@ func (*WillMsg).Unpack
+//@   nopanic [C20]
+//@   assigns p.WillMsg
+//@ func (*WillMsgReq).Unpack
+//@   nopanic [C20]
+//@ func (*WillMsgResp).Unpack
+//@   nopanic [C20]
+//@   assigns p.ReturnCode
+//@ func (*WillMsgUpd).Unpack
+//@   nopanic [C20]
+//@   assigns p.WillMsg
+//@ func (*WillTopic).Unpack
+//@   nopanic [C20]
+//@   assigns p.QOS, p.Retain, p.WillTopic
+//@ func (*WillTopicReq).Unpack
+//@   nopanic [C20]
+//@ func (*WillTopicResp).Unpack
+//@   nopanic [C20]
+//@   assigns p.ReturnCode
+//@ func (*WillTopicUpd).Unpack
+//@   nopanic [C20]
+//@   assigns p.QOS, p.Retain, p.WillTopic
+
+//@ inline (*MessageIDProperty).MessageID
+//@ inline (*MessageIDProperty).SetMessageID
+//@ inline (*Publish).decodeFlags
+//@ inline (*Subscribe).decodeFlags
+//@ inline (*Unsubscribe).decodeFlags
+//@ inline (*Suback).decodeFlags
+//@ inline (*Connect).decodeFlags
+//@ inline (*WillTopic).decodeFlags
+//@ inline (*WillTopicUpd).decodeFlags
